@@ -371,6 +371,11 @@ def history_ops(seed):
         t = CallingMCMC(ploidy=4, haplotypes=haps, steps=60, random_seed=seed).fit(RA, CA)
         return t.genotypes.tobytes() + t.llks.tobytes()
 
+    def callInit():
+        # an explicit start state (documented argument): the fit must still be seeded
+        t = CallingMCMC(ploidy=4, haplotypes=haps, steps=60, random_seed=seed).fit(RA, CA, initial=np.array([0, 1, 2, 3]))
+        return t.genotypes.tobytes() + t.llks.tobytes()
+
     def callMH():
         t = CallingMCMC(ploidy=3, haplotypes=haps, steps=60, random_seed=seed, step_type="Metropolis-Hastings").fit(RB, CB)
         return t.genotypes.tobytes()
@@ -393,9 +398,9 @@ def history_ops(seed):
         t = DenovoMCMC(ploidy=4, n_alleles=[2], steps=40, chains=1, random_seed=seed).fit(RC, np.array([59, 1]))
         return t.genotypes.tobytes()
 
-    ops = {"fitC1": fitC1, "fitC2": fitC2, "fitA": fitA, "fitB": fitB, "callA": callA, "callMH": callMH, "pedA": pedA, "nprand": lambda: np.random.rand(), "nbdraw": lambda: _nbdraw(),
+    ops = {"fitC1": fitC1, "fitC2": fitC2, "fitA": fitA, "fitB": fitB, "callA": callA, "callInit": callInit, "callMH": callMH, "pedA": pedA, "nprand": lambda: np.random.rand(), "nbdraw": lambda: _nbdraw(),
            "npseed": lambda: np.random.seed(99), "nbseed": lambda: seed_numba(123)}
-    targets = ("fitA", "fitB", "callA", "callMH", "pedA", "fitC1", "fitC2")
+    targets = ("fitA", "fitB", "callA", "callMH", "pedA", "fitC1", "fitC2", "callInit")
     return ops, targets
 
 
